@@ -119,7 +119,7 @@ def L(id, n, cap, k, tier, timeout, mutants):
                   "bound": "%d pairwise distinct keys out of an abstract universe of %d with an arbitrary hash function, capacity %d, every insertion order" % (n, k, cap),
                   "clause": "structs built from the same key/value pairs in any insertion order have bit-identical bucket arrays (hence the same cached hash), "
                             "and map every key to its value (compare by content, not by construction order)",
-                  "src": ["struct.c"], "link": ["wrap.c", "util.c"], "link_keep": {"util.c": ["janet_tablen"]},
+                  "src": ["struct.c"], "link": ["wrap.c"],
                   "harness": ["val_struct.c"], "entry": "h_struct_layout", "mode": "plain", "replace_calls": ["janet_gcalloc:v_gcalloc"],
                   "defines": ["-DVAL_N=%d" % n, "-DVAL_CAP=%d" % cap, "-DVAL_K=%d" % k], "unwind": max(cap, k + 1) + 2, "timeout": timeout,
                   "functions": ["janet_struct_put_ext", "janet_struct_begin", "janet_struct_end", "janet_struct_find"],
@@ -127,13 +127,14 @@ def L(id, n, cap, k, tier, timeout, mutants):
                   "assumes": ["janet_hash/janet_compare/janet_equals on keys are replaced by their contracts: hash an arbitrary function of the key "
                               "(symbolic table), compare a consistent total order, equals its equality (the laws proved by units val.*)",
                               "janet_gcalloc returns a fresh zeroed block of the requested size",
+                              "janet_tablen is replaced by a stub returning the unit's capacity (a power of two >= number of keys; the real one returns 8 for 2 or 3 keys)",
                               "janet_kv_calchash (cached struct hash) is replaced by a stub: any function of the bucket array; checked to be called on the whole finished array",
                               "keys are non-nil non-NaN; values are arbitrary non-nil words"],
                   "mutants": mutants})
 
 
-L("struct.layout.n2", 2, 8, 4, "quick", 120, [ex(MT_TIE, "independent of insertion order"), ex(MT_HASH, "independent of insertion order")])
-L("struct.layout.n3", 3, 8, 4, "thorough", 600, [ex(MT_TIE, "independent of insertion order"), ex(MT_DIST, "independent of insertion order|maps each key|exactly one bucket")])
+L("struct.layout.cap4", 2, 4, 4, "quick", 120, [ex(MT_TIE, "independent of insertion order"), ex(MT_HASH, "independent of insertion order")])
+L("struct.layout.cap4.n3", 3, 4, 4, "thorough", 600, [ex(MT_TIE, "independent of insertion order"), ex(MT_DIST, "independent of insertion order|maps each key|exactly one bucket")])
 
 json.dump({"units": units}, open(os.path.join(V, "units", "C03.json"), "w"), indent=1)
 print(len(units), "units")
